@@ -380,6 +380,94 @@ class E(cohdl.Entity):
             with std.exception.StdExceptionHandler(info="while driving o"):
                 self.o <<= self.a
 """)
+D("a_alias", """
+class E(cohdl.Entity):
+    a = Port.input(Bit)
+    q = Port.output(Bit)
+    w = Port.output(Bit)
+    def architecture(self):
+        # one object reachable through several closure names: the emitted name must not depend on set order
+        foo = Signal[Bit]()
+        bar = foo
+        baz = foo
+        qux = foo
+        zed = Signal[Bit]()
+        alpha = zed
+        @std.concurrent
+        def logic():
+            foo.next = self.a
+            self.q <<= bar ^ baz ^ qux
+            zed.next = ~self.a
+            self.w <<= alpha
+""")
+D("a_extern_libs", """
+ExtA = type("ExtA", (cohdl.Entity,), {"a": Port.input(Bit), "q": Port.output(Bit)}, extern=True, attributes={"path": "liba"})
+ExtB = type("ExtB", (cohdl.Entity,), {"a": Port.input(Bit), "q": Port.output(Bit)}, extern=True, attributes={"path": "libb"})
+ExtC = type("ExtC", (cohdl.Entity,), {"a": Port.input(Bit), "q": Port.output(Bit)}, extern=True, attributes={"path": "libzeta"})
+ExtD = type("ExtD", (cohdl.Entity,), {"a": Port.input(Bit), "q": Port.output(Bit)}, extern=True, attributes={"path": "otherlib"})
+
+class E(cohdl.Entity):
+    a = Port.input(Bit)
+    q = Port.output(Bit)
+    r = Port.output(Bit)
+    s = Port.output(Bit)
+    t = Port.output(Bit)
+    def architecture(self):
+        ExtA(a=self.a, q=self.q)
+        ExtB(a=self.a, q=self.r)
+        ExtC(a=self.a, q=self.s)
+        ExtD(a=self.a, q=self.t)
+""")
+D("a_shared_attrs", """
+ATTRS = {"note": "shared by every build of this design"}
+
+class E(cohdl.Entity):
+    clk = Port.input(Bit)
+    a = Port.input(Bit)
+    o = Port.output(Bit)
+    p = Port.output(Bit, default=Null)
+    def architecture(self):
+        # a caller-owned attributes dict together with comment=: the compiler must not write into it
+        @std.concurrent(comment="drive o", attributes=ATTRS)
+        def logic():
+            self.o <<= self.a
+        @std.sequential(std.Clock(self.clk), comment="drive p", attributes=ATTRS)
+        def proc():
+            self.p <<= self.a
+""", clk_ok=True)
+D("a_enum", """
+class Col(cohdl.enum.Enum):
+    idle = 1
+    busy = 2
+    done = 3
+
+class E(cohdl.Entity):
+    clk = Port.input(Bit)
+    a = Port.input(Bit)
+    o = Port.output(Bit, default=Null)
+    def architecture(self):
+        st = Signal[Col](Col.idle, name='st')
+        @std.sequential(std.Clock(self.clk))
+        def proc():
+            self.o <<= st == Col.done
+            st.next = Col.busy if self.a else Col.idle
+""", clk_ok=True)
+D("a_named_like_literals", """
+class E(cohdl.Entity):
+    clk = Port.input(Bit)
+    idle = Port.input(Bit)
+    state_0 = Port.input(Bit)
+    done = Port.output(Bit, default=Null)
+    def architecture(self):
+        # names that are enumeration literals of OTHER designs (a_enum, the state type of every coroutine)
+        busy = Signal[Bit](name="busy")
+        state_1 = Signal[Bit](name="state_1")
+        @std.sequential(std.Clock(self.clk))
+        def proc():
+            busy.next = self.idle
+            state_1.next = self.state_0 ^ busy
+            self.done <<= state_1
+""", clk_ok=True)
 # ---- rejected by architecture() --------------------------------------------------------------------
 D("r_arch_raise", """
 class E(cohdl.Entity):
@@ -526,6 +614,18 @@ class E(cohdl.Entity):
         @std.concurrent
         def logic():
             with std.exception.StdExceptionHandler(info="while driving o"):
+                self.o <<= self.a
+""", verdict="prep", eh=1)
+D("r_prep_handler_keyerror", """
+class E(cohdl.Entity):
+    a = Port.input(BitVector[4])
+    o = Port.output(BitVector[4])
+    def architecture(self):
+        @std.concurrent
+        def logic():
+            with std.exception.StdExceptionHandler(info="while driving o"):
+                # rejected by an exception that is NOT an AssertionError (raised by compile-time evaluation)
+                k = {"present": 1}["missing"]
                 self.o <<= self.a
 """, verdict="prep", eh=1)
 D("x_needs_ctx", """
@@ -964,6 +1064,10 @@ CORPUS = [
     ["r_sm_continue", "a_coro"],
     ["a_coro", "r_sm_continue", "a_comb", "a_coro", "a_sub_coro"],
     ["r_sm_continue_raw", "a_coro_raw", "a_coro"],
+    # enumeration literals reserved by one compilation must not rename objects of the next
+    ["a_enum", "a_named_like_literals"], ["a_coro", "a_named_like_literals", "a_enum", "a_named_like_literals"],
+    # a rejection that is no AssertionError inside a compile-time `with`
+    ["r_prep_handler_keyerror", "a_handler", "a_comb"], ["a_handler", "r_prep_handler_keyerror", "r_prep_handler", "a_handler"],
     # (ii) block stack + prefix table
     ["r_prep_width", "a_pfx_ctx", "a_pfx_ctx"],
     ["a_pfx_ctx", "r_prep_sub", "a_pfx_ctx", "a_pfx_ctx2", "a_pfx_arch", "a_pfx_ctx"],
